@@ -16,9 +16,56 @@ CVC5_TIMEOUT_MS = int(os.environ.get('PYVC_CVC5_TIMEOUT_MS', '30000'))
 CVC5_BIN = '/usr/bin/cvc5'
 
 
+def _symbols(e, acc, seen):
+    todo = [e]
+    while todo:
+        t = todo.pop()
+        k = t.get_id()
+        if k in seen:
+            continue
+        seen.add(k)
+        if z3.is_quantifier(t):
+            todo.append(t.body())
+            for i in range(t.num_patterns()):
+                todo.append(t.pattern(i))
+        elif z3.is_app(t):
+            if t.decl().kind() == z3.Z3_OP_UNINTERPRETED:
+                acc.add(t.decl().name())
+            todo.extend(t.children())
+
+
+def relevant_axioms(hyps, goal, axioms):
+    """axioms may be given as (defined_symbols, formula): a definitional axiom of specification functions that do
+    not occur in the obligation is dropped (conservative extension: irrelevant to validity, and a model of the
+    rest extends to it).  Untagged axioms are always kept."""
+    if not axioms:
+        return []
+    tagged = [a for a in axioms if isinstance(a, tuple)]
+    out = [a for a in axioms if not isinstance(a, tuple)]
+    if not tagged:
+        return out
+    used, seen = set(), set()
+    for h in list(hyps) + [goal] + out:
+        _symbols(h, used, seen)
+    pending = tagged
+    changed = True
+    while changed:
+        changed = False
+        rest = []
+        for syms, f in pending:
+            if set(syms) & used:
+                out.append(f)
+                _symbols(f, used, seen)
+                changed = True
+            else:
+                rest.append((syms, f))
+        pending = rest
+    return out
+
+
 def to_smt2(hyps, goal, axioms=()):
     s = z3.Solver()
-    for a in axioms:
+    for a in relevant_axioms(hyps, goal, axioms):
         s.add(a)
     for h in hyps:
         s.add(h)
@@ -44,7 +91,7 @@ PORTFOLIO = [
     {'smt.random_seed': 5, 'smt.mbqi': False},
     {'smt.random_seed': 6, 'smt.arith.solver': 6},
     {'smt.random_seed': 7, 'smt.arith.solver': 2, 'smt.qi.eager_threshold': 3.0, 'smt.qi.lazy_threshold': 6.0},
-    {'smt.random_seed': 8, 'smt.case_split': 3},
+    {'smt.random_seed': 8, 'smt.arith.solver': 2, 'smt.qi.eager_threshold': 5.0},
 ]
 
 
@@ -162,7 +209,7 @@ def ladder_pass(vcs, todo, axioms_of, ladders, timeout_ms=10000):
             pins = [z3.Int(n) == v for n, v in inst.items()]
             try:
                 cache = {}
-                hyps = [ground(h, -1, hi, cache) for h in list(vc.hyps) + list(axioms_of.get(vc.func, ()))]
+                hyps = [ground(h, -1, hi, cache) for h in list(vc.hyps) + relevant_axioms(vc.hyps, vc.goal, axioms_of.get(vc.func, ()))]
                 goal = ground(vc.goal, -1, hi, cache)
             except ValueError:
                 continue
@@ -246,7 +293,7 @@ def check_consistency(hyps_sets, timeout_ms=5000):
     jobs = []
     for name, hyps, axioms in hyps_sets:
         s = z3.Solver()
-        for a in axioms:
+        for a in relevant_axioms(hyps, z3.BoolVal(True), axioms):
             s.add(a)
         for h in hyps:
             s.add(h)
